@@ -38,6 +38,19 @@ timer event are input already queued when the timer fires (released atomically w
 expiry); case["real_kill"] -- kill() is the real Local.kill, run on a stand-in child process
 whose stdin pipe object is the scripted child-stdin sink.  Without them nothing changes.
 
+Opt-in per case (C14, the age of the command): case["record_sleeps"] -- every duration the thread that
+calls run() passes to time.sleep is recorded (obs["wait_sleeps"], run-length [[seconds, count], ...]: the wait
+loop's pauses between two looks at the process); the thread then really sleeps min(requested, case["pace"])
+seconds, so what the code is TOLD to use (case["input_sleep"], the runner's input_sleep attribute, default
+the scripted runner's 0.5 ms) is decoupled from the wall time of the check; driver event
+  ["idle", n]                          nothing is released: the command just keeps running until the wait loop
+                                       has made n more iterations (n more sleeps); skipped once the loop is left
+
+Opt-in per case (C08): case["glue"] = [i, ...] -- event i+1 happens in the same poll interval of the
+wait loop as event i (kinds out/err/exc/werr/exc_base/exit/timer): the thread executing run()/join() is
+held in the wait loop's time.sleep (time.sleep dispatcher, registered threads only) while the whole group
+is delivered; if that thread has left the wait loop the group is delivered one event at a time as usual.
+
 Only in the harness process: threading.Timer and invoke.terminals.ready_for_reading
 (plus their `from ... import` copies in invoke.runners, if any) are replaced by
 dispatchers that behave as the originals except for objects belonging to a
@@ -279,6 +292,53 @@ def install():
     _installed = True
 
 
+_real_sleep = time.sleep
+_sleep_ctx = {}          # ident of a thread that calls run() for a sleep-recording case -> its Env
+
+
+def _sleep_dispatch(secs):
+    """time.sleep in the harness process once a case asked for record_sleeps: the original for everybody
+    except (a) the thread that calls run() of such a case -- the requested duration is recorded, the real
+    pause is at most env.sleep_pace -- and (b) that runner's worker threads (real pause capped the same way,
+    nothing recorded)."""
+    env = _sleep_ctx.get(threading.get_ident())
+    if env is not None:
+        env.wait_sleeps.append(secs)
+    elif _sleep_ctx:
+        kw = getattr(threading.current_thread(), "kwargs", None)
+        tgt = kw.get("target") if isinstance(kw, dict) else None
+        env = getattr(getattr(tgt, "__self__", None), "_verif_env", None)
+        if env is not None and env.sleep_pace is None:
+            env = None
+    if env is None:
+        return _real_sleep(secs)
+    try:
+        capped = secs > env.sleep_pace
+    except TypeError:
+        capped = False
+    return _real_sleep(env.sleep_pace if capped else secs)
+
+
+def install_sleep_recorder():
+    """idempotent; patches time.sleep at the source (and a `from time import sleep` copy in invoke.runners,
+    if there is one)"""
+    import invoke.runners as R
+    if time.sleep is not _sleep_dispatch:
+        time.sleep = _sleep_dispatch
+    if getattr(R, "sleep", None) is _real_sleep:
+        R.sleep = _sleep_dispatch
+
+
+def run_lengths(xs):
+    out = []
+    for x in xs:
+        if out and out[-1][0] == x:
+            out[-1][1] += 1
+        else:
+            out.append([x, 1])
+    return out
+
+
 # optional (C08, cases with "glue"): the thread executing run()/join() of such a case is registered here;
 # whenever it calls time.sleep (the wait loop's pause between two polls) the driver may keep it there
 _parkers = {}
@@ -338,6 +398,9 @@ class Env:
         self.pending_at_timer = pending_at_timer
         # optional (C14): kill() runs the REAL Local.kill against a stand-in child (see ScriptedRunner.kill)
         self.real_kill = real_kill
+        self.wait_sleeps = []         # (record_sleeps) durations the thread calling run() passed to time.sleep
+        self.sleep_pace = None        # (record_sleeps) real seconds slept per requested sleep, at most
+        self.idle_done = 0            # iterations of the wait loop that ["idle", n] events waited for
         self.kill_errors = []         # exceptions out of the timer's function (a real Timer thread dies of them)
         self.kills_ineffective = 0    # real_kill: the stand-in child survived kill()
         self.avail = {"out": collections.deque(), "err": collections.deque(), "in": collections.deque()}
@@ -571,6 +634,21 @@ class Env:
                     need = int(ev[1])
                     ok = self._wait(lambda: sum(len(b) for w, b in self.stdin_writes if w == "in") >= need
                                     or self.stdin_closes > 0 or self._worker_gone("in"))
+                    self.consumed.append(idx)
+                elif kind == "idle":
+                    # the command keeps running: n more iterations of the wait loop (needs record_sleeps)
+                    need = len(self.wait_sleeps) + int(ev[1])
+                    if self._past_wait() or self.sleep_pace is None:
+                        self.skipped.append(idx)
+                        continue
+                    deadline = time.time() + Limits.step + 0.01 * int(ev[1])
+                    while len(self.wait_sleeps) < need and not (self._past_wait() or self.abort or self.run_done):
+                        if time.time() > deadline:
+                            ok = False
+                            break
+                        self.cv.wait(0.005)
+                    if len(self.wait_sleeps) >= need:
+                        self.idle_done += int(ev[1])
                     self.consumed.append(idx)
                 elif kind == "in_eof":
                     self.in_eof = True
@@ -1133,6 +1211,12 @@ def run_scripted(case, in_stream=None, input_sleep=None):
         kwargs["timeout"] = case["timeout"]
     if input_sleep is not None:
         runner.input_sleep = input_sleep
+    # optional (C14): record the sleeps of the thread that calls run() (see the module docstring)
+    if case.get("record_sleeps"):
+        install_sleep_recorder()
+        env.sleep_pace = float(case.get("pace", 0.0005))
+        if case.get("input_sleep") is not None:
+            runner.input_sleep = case["input_sleep"]
     # optional (C02): "stdin" = what sys.stdin is during the run ("file": has a fileno; "nofileno": fileno()
     # raises io.UnsupportedOperation; "noattr": no such method) -- the scripted runner then decides
     # pty-or-pipes the way Local does; "fallback" = the run(fallback=...) keyword (absent: not passed)
@@ -1145,6 +1229,8 @@ def run_scripted(case, in_stream=None, input_sleep=None):
     box = {}
 
     def call():
+        if env.sleep_pace is not None:
+            _sleep_ctx[threading.get_ident()] = env
         if env.glue:
             _parkers[threading.get_ident()] = env
         try:
@@ -1156,6 +1242,7 @@ def run_scripted(case, in_stream=None, input_sleep=None):
         except BaseException as e:  # noqa
             box["exc"] = e
         finally:
+            _sleep_ctx.pop(threading.get_ident(), None)
             _parkers.pop(threading.get_ident(), None)
             with env.cv:
                 env.call_done = True
@@ -1223,6 +1310,10 @@ def run_scripted(case, in_stream=None, input_sleep=None):
         "started": env.started,
         "bursts": [list(b) for b in env.bursts],
     }
+    if env.sleep_pace is not None:
+        obs["wait_sleeps"] = run_lengths(list(env.wait_sleeps))
+        obs["idle_done"] = env.idle_done
+        obs["input_sleep"] = runner.input_sleep
     # let leftover workers go
     with env.cv:
         env.abort = True
